@@ -50,6 +50,8 @@ def main():
                 prop, commit, what = m.groups()
                 if only and prop not in only:
                     continue
+                if names and not any(commit.startswith(n) for n in names):
+                    continue
                 sh("git", "-C", WT, "reset", "--hard", "HEAD")
                 rv = sh("git", "-C", WT, "revert", "-n", *(kf.get("revert_with", {}).get(commit, []) + [commit]))
                 how = "git revert -n"
